@@ -56,6 +56,18 @@ type Node struct {
 
 func (n *Node) prefix() string { return fmt.Sprintf("/n%d/", n.id) }
 
+// ID is the node's number in its tree (root = 1), assigned by Build.
+func (n *Node) ID() int { return n.id }
+
+// KVName is the name of the harness KV the node uses for the given purpose
+// ("dpindex", "bpmeta", "encmeta", "deleted", "inventory").
+func (n *Node) KVName(what string) string { return fmt.Sprintf("n%d-%s", n.id, what) }
+
+// DiskDir is the directory of a localdisk/diskpacked node under the case dir.
+func (b *Built) DiskDir(n *Node) string {
+	return filepath.Join(b.Dir, fmt.Sprintf("n%d-%s", n.id, n.Type))
+}
+
 // String is the configuration descriptor used in evidence and case dumps.
 func (n *Node) String() string {
 	var kids []string
@@ -157,13 +169,14 @@ func (n *Node) caps() Caps {
 // ---------------------------------------------------------------------------
 // generation
 
-var leafTypes = []string{"memory", "verif", "localdisk", "diskpacked"}
+var allLeafTypes = []string{"memory", "verif", "localdisk", "diskpacked"}
+
+// LeafTypes is the set of leaf backends GenTree draws from (a check may narrow
+// it, e.g. to the fault-injectable ones, before generating).
+var LeafTypes = allLeafTypes
 
 func genLeaf(t *rapid.T, persistentOnly bool) *Node {
-	types := leafTypes
-	if persistentOnly {
-		types = leafTypes[1:]
-	}
+	types := LeafTypes
 	typ := rapid.SampledFrom(types).Draw(t, "leaf")
 	n := &Node{Type: typ}
 	if typ == "diskpacked" {
@@ -200,7 +213,7 @@ func genNode(t *rapid.T, depth int, force string, noPreload bool) *Node {
 		}
 		typ = rapid.SampledFrom(types).Draw(t, "composite")
 	}
-	for _, l := range leafTypes {
+	for _, l := range allLeafTypes {
 		if typ == l {
 			n := &Node{Type: typ}
 			if typ == "diskpacked" {
